@@ -16,7 +16,7 @@ try:
     m=re.search(r'^extra=(\{.*\})$',src,re.M)
     extra=json.loads(m.group(1))
 except Exception: pass
-extra.update({"C02-r4a":["C15"],"C02-r4b":["C15"],"C04-r4b":["C15"],"C05-r4a":["C01"],"C07-r4a":["C13"],"C13-r4a":["C07"],"C12-r4a":["C07","C01"],"C11-r4b":["C15"],"C09-r4b":["C18"],"C01-r5a":["C07"],"C01-r5b":["C07","C12"],"C06-r5a":["C02"],"C10-r5a":["C11"],"C18-r5a":["C09"],"C08-r5a":["C12","C13"],"C08-r5b":["C12"],"C19-r5a":["C14"],"C02-r6a":["C08","C12"],"C02-r6b":["C15"],"C05-r6a":["C12","C13"],"C05-r6b":["C01","C19"],"C11-r6a":["C15"],"C12-r6b":["C15"],"C13-r6a":["C12"],"C13-r6b":["C12"],"C14-r6a":["C08"],"C14-r6b":["C16"],"C16-r6a":["C15"],"C04-r6b":["C10"],"C01-r7a":["C05","C19"],"C01-r7b":["C05","C12"],"C03-r7a":["C07"],"C03-r7b":["C07","C16"],"C07-r7b":["C12"],"C08-r7a":["C14"],"C08-r7b":["C12","C14"],"C09-r7a":["C17","C14"],"C09-r7b":["C17","C14"],"C10-r7a":["C15"],"C17-r7a":["C09","C14"],"C17-r7b":["C18"],"C18-r7a":["C15"],"C18-r7b":["C09"],"C02-r8a":["C20","C13"],"C02-r8b":["C15"],"C04-r8a":["C14","C03"],"C04-r8b":["C14"],"C05-r8a":["C01","C07"],"C05-r8b":["C15"],"C11-r8a":["C06"],"C11-r8b":["C16"],"C12-r8a":["C02","C13"],"C13-r8a":["C08"],"C14-r8b":["C10"],"C15-r8b":["C18"],"C16-r8a":["C20"],"C20-r8a":["C01"]})
+extra.update({"C02-r4a":["C15"],"C02-r4b":["C15"],"C04-r4b":["C15"],"C05-r4a":["C01"],"C07-r4a":["C13"],"C13-r4a":["C07"],"C12-r4a":["C07","C01"],"C11-r4b":["C15"],"C09-r4b":["C18"],"C01-r5a":["C07"],"C01-r5b":["C07","C12"],"C06-r5a":["C02"],"C10-r5a":["C11"],"C18-r5a":["C09"],"C08-r5a":["C12","C13"],"C08-r5b":["C12"],"C19-r5a":["C14"],"C02-r6a":["C08","C12"],"C02-r6b":["C15"],"C05-r6a":["C12","C13"],"C05-r6b":["C01","C19"],"C11-r6a":["C15"],"C12-r6b":["C15"],"C13-r6a":["C12"],"C13-r6b":["C12"],"C14-r6a":["C08"],"C14-r6b":["C16"],"C16-r6a":["C15"],"C04-r6b":["C10"],"C01-r7a":["C05","C19"],"C01-r7b":["C05","C12"],"C03-r7a":["C07"],"C03-r7b":["C07","C16"],"C07-r7b":["C12"],"C08-r7a":["C14"],"C08-r7b":["C12","C14"],"C09-r7a":["C17","C14"],"C09-r7b":["C17","C14"],"C10-r7a":["C15"],"C17-r7a":["C09","C14"],"C17-r7b":["C18"],"C18-r7a":["C15"],"C18-r7b":["C09"],"C02-r8a":["C20","C13"],"C02-r8b":["C15"],"C04-r8a":["C14","C03"],"C04-r8b":["C14"],"C05-r8a":["C01","C07"],"C05-r8b":["C15"],"C11-r8a":["C06"],"C11-r8b":["C16"],"C12-r8a":["C02","C13"],"C13-r8a":["C08"],"C14-r8b":["C10"],"C15-r8b":["C18"],"C16-r8a":["C20"],"C20-r8a":["C01"],"C01-r9a":["C07","C12"],"C01-r9b":["C15","C05"],"C03-r9a":["C07","C16"],"C03-r9b":["C08","C15"],"C06-r9a":["C05","C12"],"C06-r9b":["C05","C01"],"C07-r9a":["C12"],"C07-r9b":["C14"],"C08-r9a":["C13"],"C08-r9b":["C13","C14"],"C09-r9a":["C18","C14"],"C09-r9b":["C18"],"C10-r9a":["C14"],"C10-r9b":["C06","C11"],"C17-r9a":["C18"],"C17-r9b":["C09","C14"],"C18-r9b":["C16"],"C19-r9a":["C14"]})
 try: res=json.load(open(V+'/seeded/RESULTS.json'))
 except Exception: res={}
 lock=threading.Lock(); q=queue.Queue()
